@@ -24,6 +24,26 @@ def tokShapeOk : Tok → Bool
   | .ident i => !i.name.contains '"' && i.ns.all (fun n => !n.contains '"')
   | _ => true
 
+/-- a text that is `TRUE` / `FALSE` after upper-casing contains no double quote -/
+theorem boolText_nodq (v : Str) (h : boolText v = true) : (!v.contains '"') = true := by
+  cases hc : v.contains '"' with
+  | false => rfl
+  | true =>
+    exfalso
+    have hm : '"' ∈ v := by simpa using hc
+    have hm' : pyUpperC '"' ∈ pyUpper v := List.mem_map_of_mem hm
+    have e : pyUpperC '"' = '"' := by decide
+    rw [e] at hm'
+    simp only [boolText, Bool.or_eq_true, beq_iff_eq] at h
+    rcases h with h | h <;> (rw [h] at hm'; revert hm'; decide)
+
+/-- the token of the two BOOLEAN rules (`boolOrIdent`) has the guaranteed shape in both cases -/
+theorem boolOrIdent_shape (v : Str) (h : boolText v = true) : tokShapeOk (boolOrIdent v) = true := by
+  unfold boolOrIdent
+  split
+  · simp [tokShapeOk, litTextOk, SqlTotal.durLitOk, h]
+  · simp only [tokShapeOk, boolText_nodq v h]; rfl
+
 open LexImage in
 /-- one lexer step on ASCII input yields a token of the guaranteed shape -/
 theorem lexOne_shape (cs : List Char) (t : Tok) (r : List Char) (ha : cs.all isAsciiChar = true)
@@ -50,10 +70,8 @@ theorem lexOne_shape (cs : List Char) (t : Tok) (r : List Char) (ha : cs.all isA
            simp [tokShapeOk, litTextOk, SqlTotal.durLitOk, hq]; done)
         | (have hq := scanInteger_num _ _ _ ha' ‹_›
            simp [tokShapeOk, litTextOk, SqlTotal.durLitOk, hq]; done)
-        | (have hq := scanWord_true _ _ _ ha' ‹_›
-           simp [tokShapeOk, litTextOk, SqlTotal.durLitOk, hq]; done)
-        | (have hq := scanWord_false _ _ _ ha' ‹_›
-           simp [tokShapeOk, litTextOk, SqlTotal.durLitOk, hq]; done)
+        | exact boolOrIdent_shape _ (scanWord_true _ _ _ ha' ‹_›)
+        | exact boolOrIdent_shape _ (scanWord_false _ _ _ ha' ‹_›)
         | (have := scanIdent_nodq _ _ _ ‹_›
            simp only [tokShapeOk, this.1, this.2]; rfl))
     | simp at h
